@@ -645,13 +645,89 @@ def acyclic_by_construction(ctx, LF, field):
                     continue
                 if isinstance(n.value, ast.Constant) and n.value.value is None:
                     continue
-                ks = ctx.r.expr_classes(f, t.value)
+                ks = ctx.r.expr_classes(f, t.value) or _classes_by_type_id(ctx, f, t.value)
                 if ks and gcls and not (ks & gcls):
                     continue  # an object no recursive getter follows this field from
                 nstores += 1
                 if not _guarded_store(ctx, f, n, t, walkers, field):
                     unguarded.append((f, n))
     return (nstores > 0 and not unguarded), unguarded
+
+
+def _classes_by_type_id(ctx, f, e):
+    """Classes of a loop variable whose elements were selected by their type id:
+    `for x in xs` with `xs = [y for ... if y.get_type() in (A_TYPE_ID, ..) ...]`
+    (or `== A_TYPE_ID`).  The classes are those of the FortranObj cone whose
+    get_type() returns one of the constants, plus every class whose get_type()
+    is not a single constant (it may answer anything).  None when the selection
+    is not of that form."""
+    from .c07 import _class_type_id, _type_ids
+    from .shared import single_def
+
+    if not isinstance(e, ast.Name):
+        return None
+    loops = [n for n in ctx.m.walk_own(f.node) if isinstance(n, ast.For) and isinstance(n.target, ast.Name) and n.target.id == e.id]
+    if len(loops) != 1:
+        return None
+    it = loops[0].iter
+    if isinstance(it, ast.Name):
+        it = single_def(ctx, f, it.id)
+    if not isinstance(it, (ast.ListComp, ast.GeneratorExp)) or not isinstance(it.elt, ast.Name):
+        return None
+    ids = _type_ids(ctx)
+    el = it.elt.id
+
+    def const_set(x):
+        if isinstance(x, ast.Name) and x.id in ids:
+            return {ids[x.id]}
+        if isinstance(x, ast.Name):
+            for cs in ctx.m.consts.values():
+                if x.id in cs:
+                    return const_set(cs[x.id])
+            return None
+        if isinstance(x, (ast.Tuple, ast.List, ast.Set)):
+            out = set()
+            for y in x.elts:
+                s_ = const_set(y)
+                if s_ is None:
+                    return None
+                out |= s_
+            return out
+        return None
+
+    allowed = None
+    truthy_methods = []
+    for g in it.generators:
+        for cond in g.ifs:
+            for t in cond.values if isinstance(cond, ast.BoolOp) and isinstance(cond.op, ast.And) else [cond]:
+                if isinstance(t, ast.Call) and isinstance(t.func, ast.Attribute) and isinstance(t.func.value, ast.Name) and t.func.value.id == el and not t.args and not t.keywords:
+                    truthy_methods.append(t.func.attr)
+                if isinstance(t, ast.Compare) and len(t.ops) == 1 and isinstance(t.ops[0], (ast.In, ast.Eq)) and unparse(t.left) == f"{el}.get_type()":
+                    cs = const_set(t.comparators[0])
+                    if cs is not None:
+                        allowed = cs if allowed is None else (allowed & cs)
+    if allowed is None:
+        return None
+    base = ctx.m.cname.get("FortranObj")
+    if not base:
+        return None
+    out = set()
+    def never_true(c, meth):
+        q = ctx.m.method(c, meth)
+        if not q:
+            return False
+        rets = [r for r in ctx.m.walk_own(ctx.m.funcs[q].node) if isinstance(r, ast.Return)]
+        return bool(rets) and all(isinstance(r.value, ast.Constant) and not r.value.value for r in rets)
+
+    for c in ctx.m.cone(base):
+        tid = _class_type_id(ctx, c, ids)
+        if not (tid is None or tid in allowed):
+            continue
+        # a predicate method the element had to answer truthily: classes whose version is constantly false are out
+        if any(never_true(c, mth) for mth in truthy_methods):
+            continue
+        out.add(c)
+    return out or None
 
 
 def _walker_negative(ctx, f, expr, valtxt, recvtxt, walkers, field):
